@@ -23,6 +23,11 @@ from ..model import Program, call_name, norm, dict_store_keys, execution_conditi
 from ..poly import Rat, eval_expr
 from ..report import AnalysisError
 
+# helpers of _sample_chain that the rules look for as calls; any other private helper is inlined
+SAMPLE_CHAIN_ANCHORS = frozenset({"_update_chain_stats", "_update_monitor_stats", "_flush_memmap_chain_data", "_check_and_process_init_state", "_file_paths_to_memmaps", "_memmaps_to_file_paths"})
+
+STORAGE_ANCHORS = frozenset({"_open_new_memmap", "_generate_memmap_filenames", "_get_valid_filename"})
+
 PROP = "C13"
 
 
@@ -330,7 +335,7 @@ def rule_r2(rep, program: Program, et: ExcTypes):
 # R3
 def rule_r3(rep, program: Program):
     r = rep.rule("R3", "row index, store order, returned state, offset accumulation and n_trace_iter", floor=7)
-    f = program.func("samplers", "_sample_chain")
+    f = program.func_inlined("samplers", "_sample_chain", keep=SAMPLE_CHAIN_ANCHORS)
     want = Rat.sym("sample_index") + Rat.sym("sampling_index_offset")
     # locate the iteration loop
     loops = [n for n in ast.walk(f.node) if isinstance(n, ast.For) and norm(n.iter) == "chain_iterator"]
@@ -439,7 +444,7 @@ def rule_r3(rep, program: Program):
 def rule_r4(rep, program: Program):
     r = rep.rule("R4", "storage siblings agree (shape, fill, dtype); multi-process implies memmap; memmaps cross the process boundary as paths; one file per array", floor=8)
     for fname in ("_init_stats", "_init_traces"):
-        f = program.func("samplers", fname)
+        f = program.func_inlined("samplers", fname, keep=STORAGE_ANCHORS)
         ifs = [n for n in ast.walk(f.node) if isinstance(n, ast.If) and norm(n.test) == "use_memmap"]
         if len(ifs) != 1:
             raise AnalysisError(f"{fname}: `if use_memmap` not found")
@@ -464,7 +469,7 @@ def rule_r4(rep, program: Program):
     # one file per array: the file name is a function of every index of the array it backs
     prefixes = {}
     for fname in ("_init_stats", "_init_traces"):
-        f = program.func("samplers", fname)
+        f = program.func_inlined("samplers", fname, keep=STORAGE_ANCHORS)
         for st in ast.walk(f.node):
             if not (isinstance(st, ast.Assign) and len(st.targets) == 1 and isinstance(st.targets[0], ast.Subscript)):
                 continue
@@ -535,7 +540,7 @@ def rule_r4(rep, program: Program):
     for k in ("'chain_stats'", "'chain_traces'"):
         if k not in conv:
             r.violate(PROP, f"_sample_chains_parallel:not-converted:{k}", f"{k} is put on the worker queue without converting memmaps to file paths", node=par.node, file=par.file)
-    ch = program.func("samplers", "_sample_chain")
+    ch = program.func_inlined("samplers", "_sample_chain", keep=SAMPLE_CHAIN_ANCHORS)
     back = {norm(n.targets[0]) for n in ast.walk(ch.node) if isinstance(n, ast.Assign) and isinstance(n.value, ast.Call) and norm(n.value.func) == "_file_paths_to_memmaps"}
     r.inst({"re-opened in worker": sorted(back)})
     if back != {"chain_traces", "chain_stats"}:
